@@ -536,3 +536,99 @@ def clip_certificate(fi, a):
                     return False, f"{ast.unparse(st)} but `{raw}` is still read un-clipped at line {getattr(later[0], '_src_line', later[0].lineno)}"
                 return True, ast.unparse(st.value)
     return False, "-"
+
+
+def breakdown_reference(idx, rep, fact, rule, construct, loop, counter_slot):
+    """The breakdown test of a Krylov loop is relative: `beta_j > tol * beta_1`.  At the first iteration that is tested at all (the
+    first ones are exempted by `| (counter <= K)`) the quantity tested must not BE the reference: `beta_1 > tol * beta_1` holds for any
+    beta_1 > 0, so a Krylov space that is exhausted after one step (start vector = eigenvector: beta_1 is round-off, not 0) is never
+    detected and the loop runs on round-off.  Decided on the condition: index of the tested entry at the first tested counter against
+    the constant index of the reference, for the same state array (Lanczos), or through the body's write of the tested value into the
+    array the reference is read from (Arnoldi)."""
+    from sa import loop as lp
+    cond, body = loop.cond, loop.body
+    if cond is None or isinstance(cond, ast.Lambda) or body is None or isinstance(body, ast.Lambda):
+        rep.undecided(rule, construct, "condition / body not nested functions")
+        return
+    rets = lp.return_exprs(cond)
+    if not rets:
+        rep.undecided(rule, construct, "condition returns nothing")
+        return
+    e = lp.inline_expr(idx, cond, rets[0])
+    state = cond.params[0]
+    slots = lp.state_slots(cond, state)
+    counter = next((n for n, i in slots.items() if i == counter_slot or (isinstance(i, int) and i < 0 and counter_slot is not None and i == counter_slot - len([1 for _ in slots]))), None)
+    if counter is None:
+        # counter bound after a star (`*_, subdiag, i = state`): the last name
+        counter = next((n for n, i in slots.items() if i == -1), None)
+    # exemption `counter <= K`
+    K = None
+    for x in ast.walk(e):
+        if isinstance(x, ast.Compare) and len(x.ops) == 1 and isinstance(x.left, ast.Name) and x.left.id == counter and isinstance(x.comparators[0], ast.Constant) \
+                and isinstance(x.comparators[0].value, int):
+            if isinstance(x.ops[0], ast.LtE):
+                K = x.comparators[0].value
+            elif isinstance(x.ops[0], ast.Lt):
+                K = x.comparators[0].value - 1
+    cmp_ = next((x for x in ast.walk(e) if isinstance(x, ast.Compare) and len(x.ops) == 1 and isinstance(x.ops[0], (ast.Gt, ast.GtE))
+                 and isinstance(x.comparators[0], ast.BinOp) and isinstance(x.comparators[0].op, ast.Mult)), None)
+    if counter is None or K is None or cmp_ is None:
+        rep.undecided(rule, construct, "no relative test `x > tol * reference` with a first-iteration exemption found in the condition")
+        return
+    c0 = K + 1
+    lhs = cmp_.left
+    ref = next((s_ for s_ in (cmp_.comparators[0].left, cmp_.comparators[0].right) if any(isinstance(y, ast.Subscript) for y in ast.walk(s_))), None)
+
+    def strip(x):
+        while isinstance(x, ast.Attribute) and x.attr in ("real", "imag"):
+            x = x.value
+        return x
+
+    def const_index(sub):
+        """integer components of a subscript (Ellipsis / full slices dropped), with the counter replaced by c0; None if not constant"""
+        elts = sub.slice.elts if isinstance(sub.slice, ast.Tuple) else [sub.slice]
+        out = []
+        for el in elts:
+            if isinstance(el, ast.Constant) and el.value is Ellipsis:
+                continue
+            if isinstance(el, ast.Slice) and el.lower is None and el.upper is None:
+                continue
+            try:
+                code = compile(ast.Expression(body=ast.fix_missing_locations(ast.parse(ast.unparse(el), mode="eval").body)), "<i>", "eval")
+                out.append(int(eval(code, {"__builtins__": {}}, {counter: c0})))
+            except Exception:
+                return None
+        return tuple(out)
+    lhs, ref = strip(lhs), strip(ref) if ref is not None else None
+    if not isinstance(ref, ast.Subscript) or not isinstance(ref.value, ast.Name):
+        rep.undecided(rule, construct, "reference of the relative test is not an entry of a state array")
+        return
+    ref_idx = const_index(ref)
+    same = None
+    if isinstance(lhs, ast.Subscript) and isinstance(lhs.value, ast.Name):
+        li = const_index(lhs)
+        if li is not None and ref_idx is not None:
+            same = lhs.value.id == ref.value.id and li == ref_idx
+    elif isinstance(lhs, ast.Name) and lhs.id in slots:
+        # a scalar series of the state: where does the body store the value it returns for that slot?
+        bslots = lp.state_slots(body, body.params[0]) if body.params else {}
+        bcounter = next((n for n, i in bslots.items() if i == counter_slot), None)
+        rvals = [r.value for r in df.returns(body.node) if isinstance(r.value, ast.Tuple)]
+        slot_i = slots[lhs.id]
+        if rvals and bcounter is not None and isinstance(slot_i, int) and -len(rvals[0].elts) <= slot_i < len(rvals[0].elts):
+            ret_txt = nospace(rvals[0].elts[slot_i])
+            ups = [c for c in df.calls(body.node, into_nested=False) if df.is_xnp_call(c) == "update_array" and len(c.args) >= 3]
+            inner = [c for c in ups if nospace(c.args[1]) == ret_txt and nospace(c.args[-1]) == f"{bcounter}+1"]
+            outer = [c for c in ups if nospace(c.args[-1]) == bcounter and (any(c.args[1] is i_ for i_ in inner) or
+                                                                            any(isinstance(c.args[1], ast.Name) and any(nospace(t_) == c.args[1].id for t_ in getattr(getattr(i_, "_parent", None), "targets", [])) for i_ in inner))]
+            if inner and outer and ref_idx is not None and len(ref_idx) >= 2:
+                # the value sits at [.., counter_before + 1, counter_before]; the condition sees counter = counter_before + 1 = c0
+                same = ref_idx[-2:] == (c0, c0 - 1)
+    if same is None:
+        rep.undecided(rule, construct, f"`{ast.unparse(cmp_)[:70]}`: tested entry and reference could not be related at the first tested iteration")
+    elif same:
+        rep.refuted(rule, construct, f"`{ast.unparse(cmp_)[:80]}`: at the first iteration that is tested ({counter} = {c0}) the tested quantity IS the reference entry "
+                    f"`{ast.unparse(ref)}` -- `x > tol * x` holds for every x > 0, so a Krylov space exhausted after the first step (start vector an eigenvector: x is round-off, "
+                    "not 0) is not detected and the iteration continues on round-off", detail="self-reference", locs=[idx.loc(cond.module, cond.node)])
+    else:
+        rep.proved(rule, construct, f"`{ast.unparse(cmp_)[:80]}`: at the first tested iteration the tested entry differs from the reference", locs=[idx.loc(cond.module, cond.node)])
